@@ -79,6 +79,12 @@ Step ==
                                           THEN (IF S.outcome = "KeyError" THEN {} ELSE {<<"ListenerError", op[2]>>})
                                           ELSE IF S.outcome = "ok" /\ S.ret = RetOf(op[2], op[3]) THEN {} ELSE {<<"Return", op[2]>>}))
 
+       [] op[1] = "callno" ->
+            \* with no_overlay(): fn(v) - no probe hears the call; the return value is the function's own
+            /\ UNCHANGED <<status, order, nonlifo, m, expect, mrecv>>
+            /\ fails' = AddAll(fails, Clauses(status, expect) \cup
+                                      (IF S.outcome = "ok" /\ S.ret = RetOf(op[2], op[3]) THEN {} ELSE {<<"Return", op[2]>>}))
+
 Spec == Init /\ [][Step]_vars
 Progress == TLCSet(tid, <<l - 1, fails>>)
 Post == \A i \in 1..Len(Traces) :
